@@ -20,6 +20,8 @@ def io_cfg(rng, faults=True):
         cfg["errno_noise"] = rng.chance(0.5)
         # allocator behaviour: a third of the runs use the executor whose heap hands freed addresses out again at once
         cfg["quarantine0"] = rng.chance(0.33)
+        # a daemon may run with its standard descriptors closed: the first file the library opens then gets descriptor 0
+        cfg["fd0_free"] = rng.chance(0.15)
     return cfg
 
 
@@ -415,6 +417,11 @@ def gen_layered_world(rng, i, two_layer=None, want_files=True, small=False, allo
                     node = {"p": "%s/%s%s" % (d, nm, suf), "t": "l", "to": "/dev/null"}
 
                 nodes.append(node)
+            if suf and rng.chance(0.05):
+                # a SUB-DIRECTORY whose name carries the suffix (50-old.conf/): it is looked at like the files next to it -
+                # checks, callback - but it is no file and contributes nothing
+                fid += 1
+                nodes.append({"p": "%s/subdir-%d%s" % (d, fid, suf), "t": "d", "sub": True})
             # non-members (only meaningful with a suffix)
             if suf and rng.chance(0.5):
                 for nm in rng.subset(["10-a", "zz%s.bak" % suf, "q%sx" % suf, suf, ".hidden", "9-b%s~" % suf], 1, 3):
